@@ -77,7 +77,7 @@ func (c *FileListChangesFileHash) UnmarshalControl(data string) error {
 type Changes struct {
 	Paragraph
 
-	Filename string
+	Filename string `control:"-"`
 
 	Format          string
 	Source          string
